@@ -96,6 +96,7 @@ func NewEngine(prog *ssa.Program, cfg Config) *Engine {
 	registerStd(e)
 	registerBits(e)
 	e.opaque["internal/oserror"] = false
+	e.opaque[nokv+"/pb"] = true // generated protobuf registration (reflection): never needed by a kernel
 	e.opaque["unicode/utf8"] = false
 	e.opaque["internal/bytealg"] = true
 	// package os: only the sentinel errors are needed (the rest of its
